@@ -376,6 +376,30 @@ var allowedAsserts = map[string]string{
 
 func rulePanicCensus(c *Ctx) {
 	p := c.P
+	// functions handed to timerqueue.New as its callback
+	timerCallbacks := map[*ssa.Function]bool{}
+	for _, f := range p.Repo {
+		for _, call := range callsIn(f) {
+			cf := calleeFunc(call.Common())
+			if cf == nil || cf.Pkg() == nil || !strings.HasSuffix(cf.Pkg().Path(), "timerqueue") || cf.Name() != "New" {
+				continue
+			}
+			for _, a := range call.Common().Args {
+				switch v := stripConv(a).(type) {
+				case *ssa.Function:
+					timerCallbacks[v] = true
+				case *ssa.MakeClosure:
+					vf := v.Fn.(*ssa.Function)
+					timerCallbacks[vf] = true
+					if m := boundMethod(vf); m != nil && vf.Synthetic != "" {
+						if mf := p.SSA.FuncValue(m); mf != nil {
+							timerCallbacks[mf] = true
+						}
+					}
+				}
+			}
+		}
+	}
 	for _, fn := range p.Repo {
 		allInstrs(fn, func(in ssa.Instruction) {
 			switch x := in.(type) {
@@ -394,8 +418,15 @@ func rulePanicCensus(c *Ctx) {
 				if x.CommaOk {
 					return
 				}
+				if types.Identical(x.AssertedType, x.X.Type()) {
+					return // the nil check of an interface method value (`s.mq.Close` as a func value): no type is asserted
+				}
 				c.inst(1)
 				name := fnName(TopLevel(fn))
+				if _, isPrm := x.X.(*ssa.Parameter); isPrm && timerCallbacks[fn] {
+					c.ok(name, "unchecked type assertion is a listed one", p.InstrPos(x), "callback of a timer queue: the queue hands back the value it was given")
+					return
+				}
 				if o, owned := p.ownedBy(fn, func(nm string) bool { _, l := allowedAsserts[nm]; return l }); owned {
 					name = o
 				}
